@@ -19,8 +19,9 @@ import Mdns.Lemmas.Responder
     `T+500`, the end at `T+750`, whatever other iterations happen in between (`probe_timeline`),
     each query carrying `ANY name` and the probe's records as authorities (`probe_query_content`);
     after `prepare_announce` every unique record of the service is active or in the probe of its
-    name (`registration_probes_every_record`); a new probe starts at `now + jitter`
-    (`new_probe_starts_at_jitter`);
+    name (`registration_probes_every_record`); every probe a registration creates starts at
+    `now + jitter` (`new_probe_starts_at_jitter`, `registration_probe_times`); at its end the
+    probe's records become active and the waiting services are woken (`probe_end_activates_records`);
   * the whole life cycle - probes at `t0+j`, `+250`, `+500` with the stated content, nothing
     else before, announcements at `t0+j+750` and `t0+j+1750` with PTR, SRV, TXT, address
     answers - by evaluation of the model under the timely scheduler for EVERY jitter `j < 250`
@@ -119,6 +120,25 @@ theorem new_probe_starts_at_jitter (r : Registry) (a : RR) (n : BList) (t : Nat)
     ∃ p, alookup a.getName (r.probeInsert a n t).probing = some p ∧ p.start = t ∧ p.next = t := by
   obtain ⟨p, hp, hnew, _⟩ := probeInsert_times r a n t
   exact ⟨p, hp, hnew h⟩
+
+/-- Every probe a registration creates - for a name that was not being probed - starts, and
+    first sends, at `now + jitter`; a probe that was already running keeps its times. -/
+theorem registration_probe_times (s : Service) (i : MyIntf) (r : Registry) (v4 : Bool) (now j : Nat) (n : BList) :
+    (alookup n r.probing = none → ∀ p, alookup n (prepareAnnounceReg s i r v4 now j).probing = some p →
+      p.start = now + j ∧ p.next = now + j) ∧
+    (∀ q, alookup n r.probing = some q → ∃ p, alookup n (prepareAnnounceReg s i r v4 now j).probing = some p ∧
+      p.start = q.start ∧ p.next = q.next) :=
+  prepareAnnounceReg_times s i r v4 now j n
+
+/-- The end of a probe (`handle_expired_probes`, no rename pending): the probe is removed, each
+    of its records (filed under its name) is active from then on, and - if it had records -
+    every service that waited for it is woken to be announced. -/
+theorem probe_end_activates_records (intfName : BList) (acc : Registry × List Event × List BList) (name : BList) (p : Probe)
+    (hl : alookup name acc.1.probing = some p) (hn : NoRen acc.1) :
+    (∀ a ∈ p.records, a.getName = name → (expireProbe intfName acc name).1.isActive a = true) ∧
+    alookup name (expireProbe intfName acc name).1.probing = none ∧
+    (p.records ≠ [] → ∀ w ∈ p.waiting, w ∈ (expireProbe intfName acc name).2.2) :=
+  expireProbe_activates intfName acc name p hl hn
 
 /-! ### findings (the model mirrors the code; both agree on the witnesses in corpus/C07) -/
 
@@ -226,8 +246,10 @@ theorem lifecycleOk_spec (i : MyIntf) (svc : Service) (t0 : Nat) (js : List Nat)
     the concrete registration `web` on `eth0` at `t0 = 1000000`, and for a spread of jitters on
     the dual-stack mixed-case registration.  MISSING for the full statement: arbitrary service
     data, interface and start time (the general facts it would be assembled from are the
-    theorems above: `probe_timeline`, `probe_query_content`, `registration_probes_every_record`,
-    `new_probe_starts_at_jitter`, `announcement_needs_active`, `announced_records_active`). -/
+    theorems above: `registration_probes_every_record`, `registration_probe_times`, `probe_timeline`,
+    `probe_query_content`, `probe_end_activates_records`, `announcement_needs_active`,
+    `announced_records_active`, `silent_until_announced`; what is not done is their composition
+    through `iter` for a symbolic service and registry). -/
 theorem probe_lifecycle_partial :
     (∀ j, j < 250 → sendsAt (lifecycle eth0 web 1000000 j) = expectedSends eth0 web 1000000 j) ∧
     (∀ j ∈ [0, 1, 7, 100, 125, 248, 249],
